@@ -1,22 +1,22 @@
 SPECIFICATION Spec
 CONSTANTS
-  Kind = "sn"
-  Smp = "ref"
+  Kind = "mps"
+  Smp = "asis"
   SumSamples = FALSE
   ExpSamples = FALSE
   OptImpl = "fixed"
-  Ctor = "bare"
+  Ctor = "model"
   N = 2
   Chans = 1
   Temps = {"any"}
-  Acts = {"temp", "hard", "gumbel", "disable", "mode", "fwd", "alpha", "load", "summary", "export"}
+  Acts = {"temp", "hard", "gumbel", "disable", "mode", "fwd", "alpha", "load", "freeze", "summary", "export"}
   Writes = {"copy", "data", "optim"}
   Ckpts = {"soft"}
   Moves = "gen"
   InitAlpha = "ctor"
   AllowKF = FALSE
   Grads = {TRUE, FALSE}
-  SelHows = {}
+  SelHows = {"net_only", "nas_only", "net_and_nas"}
 INVARIANT TypeOK
 INVARIANT SampledIsProb
 INVARIANT OneHotAtArgmax
